@@ -90,7 +90,9 @@ def r01b(model: Model, rr: RuleResult):
     cfi = model.func("color_glyph", "ColorGlyph.create")
     cfg = cfg_of(cfi)
     w = [st for st in walk_body(cfi) if isinstance(st, ast.Assign) and norm(st.targets[0]) == "base_glyph.width"]
-    if len(w) == 2 and any("_advance_width" in norm(x.value) for x in w) and any(norm(x.value) == "font_config.width" for x in w):
+    from ..guards import value_cases as _vc1
+    wvals = [norm(v_) for x in w for v_, _ in _vc1(cfg, x)]
+    if len(wvals) == 2 and any("_advance_width" in t_ for t_ in wvals) and any(t_ == "font_config.width" for t_ in wvals):
         rr.ok("ColorGlyph.create: width = _advance_width(view_box, config) when a viewBox exists, else config.width")
     else:
         rr.bad_shape(cfi, cfi.node, "glyph advance is not assigned from _advance_width / config.width", construct="ColorGlyph.create: base_glyph.width")
